@@ -24,6 +24,8 @@ type c17Req struct {
 
 type c17Step struct {
 	// start, respond, resphdr, finish, rst, cancel, closeresp, closebody, settings,
+	// settings_other (SETTINGS without MAX_CONCURRENT_STREAMS: V 0 empty, 1/2
+	// INITIAL_WINDOW_SIZE, 3/4 MAX_FRAME_SIZE, 5/6 HEADER_TABLE_SIZE, 7 several),
 	// holdpings, pong
 	Kind  string `json:"kind"`
 	K     int    `json:"k"` // selects the target among the currently eligible ones (mod)
@@ -61,13 +63,16 @@ func c17Gen(t *rapid.T) c17Case {
 		"start", "start", "start", "start", "start",
 		"respond", "respond", "respond", "resphdr", "finish",
 		"rst", "rst", "cancel", "cancel", "closeresp", "closebody",
-		"settings", "settings", "settings", "holdpings", "pong",
+		"settings", "settings", "settings", "settings_other", "settings_other", "holdpings", "pong",
 	}
 	step := rapid.Custom(func(t *rapid.T) c17Step {
 		s := c17Step{Kind: rapid.SampledFrom(kinds).Draw(t, "kind"), K: rapid.IntRange(0, 15).Draw(t, "k")}
 		switch s.Kind {
 		case "settings":
 			s.V = rapid.SampledFrom([]uint32{0, 1, 1, 2, 2, 3, 4, 100}).Draw(t, "v")
+			s.Burst = rapid.IntRange(0, 3).Draw(t, "burst") == 0
+		case "settings_other":
+			s.V = rapid.Uint32Range(0, 7).Draw(t, "v")
 			s.Burst = rapid.IntRange(0, 3).Draw(t, "burst") == 0
 		case "rst":
 			s.V = rapid.SampledFrom([]uint32{uint32(ErrCodeCancel), uint32(ErrCodeRefusedStream), uint32(ErrCodeInternal)}).Draw(t, "code")
@@ -87,7 +92,7 @@ func c17Gen(t *rapid.T) c17Case {
 
 func c17ServerKind(k string) bool {
 	switch k {
-	case "respond", "resphdr", "finish", "rst", "settings", "pong":
+	case "respond", "resphdr", "finish", "rst", "settings", "settings_other", "pong":
 		return true
 	}
 	return false
@@ -134,6 +139,7 @@ func c17Run(t *testing.T, c c17Case, r *vp.Rec) (err error) {
 	waited := 0
 	loweredBelow := false
 	heldReset := false
+	otherAtLimit := false   // a SETTINGS without MAX_CONCURRENT_STREAMS arrived at a full connection
 	pendingOffWire := false // non-strict: an unfinished request off the wire without the evidence above
 	stalled := false        // strict: a request did not start/finish although slots were freed
 
@@ -249,6 +255,32 @@ func c17Run(t *testing.T, c c17Case, r *vp.Rec) (err error) {
 				loweredBelow = true
 			}
 			s.writeSettingsMCS(cn, st.V)
+		case "settings_other":
+			if len(s.conns) == 0 {
+				continue
+			}
+			cn := s.conns[st.K%len(s.conns)]
+			var set []Setting
+			switch st.V {
+			case 1:
+				set = []Setting{{ID: SettingInitialWindowSize, Val: 65535}}
+			case 2:
+				set = []Setting{{ID: SettingInitialWindowSize, Val: 1 << 20}}
+			case 3:
+				set = []Setting{{ID: SettingMaxFrameSize, Val: 16384}}
+			case 4:
+				set = []Setting{{ID: SettingMaxFrameSize, Val: 1 << 16}}
+			case 5:
+				set = []Setting{{ID: SettingHeaderTableSize, Val: 4096}}
+			case 6:
+				set = []Setting{{ID: SettingHeaderTableSize, Val: 0}}
+			case 7:
+				set = []Setting{{ID: SettingHeaderTableSize, Val: 1024}, {ID: SettingInitialWindowSize, Val: 1 << 18}, {ID: SettingMaxFrameSize, Val: 1 << 15}}
+			}
+			if int64(cn.open()) >= cn.limit() {
+				otherAtLimit = true
+			}
+			s.writeSettingsOther(cn, set...)
 		case "holdpings":
 			if len(s.conns) == 0 {
 				continue
@@ -424,6 +456,9 @@ func c17Run(t *testing.T, c c17Case, r *vp.Rec) (err error) {
 	}
 	if heldReset {
 		r.Class("client-reset-with-ping-unanswered")
+	}
+	if otherAtLimit {
+		r.Class("settings-without-limit-at-full-conn")
 	}
 	if stalled {
 		r.Class("stalled-after-slot-freed")
